@@ -12,7 +12,7 @@ from typing import Dict, List, Optional, Tuple
 from ..interp import Domain, Frame, Interp, VPath, WriteEvent
 from ..model import AnalysisError, ClassInfo, FuncInfo, Model
 from ..state import is_user_state_path
-from .common import purge_loop_facts, PRIMITIVE_FUNCS, canon_key, is_loop_key, site_of, stmt_of, text_of
+from .common import purge_loop_facts, PRIMITIVE_FUNCS, canon_key, is_loop_key, site_of, stmt_of, text_of, key_text
 
 # (helper, callee name) pairs where the callee starts a new constituent transaction
 BOUNDARIES = {
@@ -246,10 +246,11 @@ def _invariants(model: Model) -> dict:
 
 
 class Site:
-    __slots__ = ("func", "text", "loc", "kind")
+    __slots__ = ("func", "text", "loc", "kind", "ktext")
 
-    def __init__(self, func, text, loc, kind):
+    def __init__(self, func, text, loc, kind, ktext=None):
         self.func, self.text, self.loc, self.kind = func, text, loc, kind
+        self.ktext = ktext if ktext is not None else text      # identity text: local names positional
 
 
 class AtomDomain(Domain):
@@ -281,7 +282,7 @@ class AtomDomain(Domain):
         txt = text_of(n, f)
         key = (f.func.qualname, txt)
         if key not in self.sites:
-            self.sites[key] = Site(f.func.qualname, txt, f.loc(n), kind)
+            self.sites[key] = Site(f.func.qualname, txt, f.loc(n), kind, key_text(n, f))
         return key
 
     def _tracked(self, cont) -> bool:
@@ -500,13 +501,13 @@ def run_atom(model: Model, res, prop: str = "C04", entries=None, max_depth: int 
                 if pair in seen_pairs:
                     continue
                 seen_pairs.add(pair)
-                construct = f"{ws.text} >> [{rs.func}] {rs.text}"
+                construct = f"{ws.ktext} >> [{rs.func}] {rs.ktext}"
                 res.find(
                     "R-ATOM", ws.func, construct, ws.loc,
                     f"state write `{ws.text}` ({pstr}) is not undone when the operation is rejected at {rs.loc} "
                     f"`{rs.text}` ({exc}); reached from {entry}",
-                    {"entry": entry, "write": {"func": ws.func, "loc": ws.loc, "text": ws.text, "path": pstr},
-                     "rejection": {"func": rs.func, "loc": rs.loc, "text": rs.text, "exception": exc}},
+                    {"entry": entry, "write": {"func": ws.func, "loc": ws.loc, "text": ws.text, "key_text": ws.ktext, "path": pstr},
+                     "rejection": {"func": rs.func, "loc": rs.loc, "text": rs.text, "key_text": rs.ktext, "exception": exc}},
                 )
         n_paths += rej_total
         res.ob("R-ATOM", f"{entry}: {rej_total} reachable rejection exits, {len(dom.write_sites_seen)} write sites",
